@@ -600,6 +600,23 @@ def materialise(spec):
         out["text"] = pdbfmt.to_text(out["items"])
     if p.get("icode_prob") and random.Random(spec["seed"] + 17).random() < p["icode_prob"]:
         apply_icodes(out, random.Random(spec["seed"] + 18))
+    if p.get("water_repeat_prob") and "items" in out and random.Random(spec["seed"] + 26).random() < p["water_repeat_prob"]:
+        # solvent whose numbering repeats with a short period (wrapped / concatenated water shells): non-adjacent
+        # waters share chain + number, so distinct atoms carry identical labels
+        r27 = random.Random(spec["seed"] + 27)
+        period = r27.choice([2, 3, 4])
+        chain = r27.choice(["W", "", "A"])
+        base = r27.choice([201, 9998, 1])
+        remap = {}
+        for it in out["items"]:
+            if isinstance(it, dict) and it["resn"] in ("HOH", "WAT"):
+                k = (it["chain"], it["resi"], it["icode"])
+                if k not in remap:
+                    remap[k] = base + len(remap) % period
+                it["chain"], it["resi"], it["icode"], it["resn"] = chain, remap[k], "", "HOH"
+        if len(remap) > period:
+            out["text"] = pdbfmt.to_text(out["items"])
+            out.setdefault("meta", {})["water_labels_repeat"] = True
     if p.get("shuffle_atoms_prob") and "items" in out and random.Random(spec["seed"] + 24).random() < p["shuffle_atoms_prob"]:
         # the atoms of a residue in an unusual order (children before parents): legal, order carries no meaning
         r25 = random.Random(spec["seed"] + 25)
